@@ -85,7 +85,7 @@ impl Property for C17 {
         }
     }
     fn rule(&self) -> &'static str {
-        "seeded histories (20..300 events) over 40 keys, 7 compound keys, 2x5 Sinclair controls, 8 Kempston bits, 4 mouse buttons, wheel and motion deltas (incl. +-127/-128), biased to overlap several sources on one matrix position, double presses and releases of unheld controls; after every event a scan by IN A,(C) through the emulated CPU of seeded half-row selectors, 0x1F and the mouse ports; distinct = (matrix position, set of holding sources, selector class) + (device, value class)"
+        "seeded histories (20..300 events) over 40 keys, 7 compound keys, 2x5 Sinclair controls, 8 Kempston bits, 4 mouse buttons, wheel and motion deltas (incl. +-127/-128), biased to overlap several sources on one matrix position, double presses and releases of unheld controls; after every event a scan by IN A,(C) through the emulated CPU of seeded half-row selectors, 0x1F and the mouse ports; distinct = (matrix position, set of holding sources, selector class) + (device, value class) Long bursts (1 in 90 events): 258..560 equal motion events of +-127, or exactly 255..257 / 511..513 / 768 key events between two scans ending in a state change."
     }
     fn state_measure(&self) -> &'static str {
         "distinct (matrix row, 5-bit row value, multi-source overlap present) combinations read back"
